@@ -205,8 +205,14 @@ class Fn:
                         src = None
                         if rv["k"] == "use" and rv["op"]["k"] in ("copy", "move") and not rv["op"]["p"]:
                             src = rv["op"]["l"]
+                        elif rv["k"] == "use" and rv["op"]["k"] in ("copy", "move") and len(rv["op"]["p"]) == 2 \
+                                and str(rv["op"]["p"][0]).startswith("@") and rv["op"]["p"][1] == ".0":
+                            src = rv["op"]["l"]            # the payload of a matched wrapper: `(_x as Ok).0`
                         elif rv["k"] in ("discr", "ref") and not rv["place"]["p"]:
                             src = rv["place"]["l"]
+                        elif rv["k"] == "agg" and rv.get("variant") and len(rv.get("ops", [])) == 1 and rv["ops"][0]["k"] in ("copy", "move") \
+                                and not rv["ops"][0]["p"]:
+                            src = rv["ops"][0]["l"]        # `Ok(inner)`: the wrapper's payload may carry a variant of its own
                         if src is not None and src not in rel:
                             rel.add(src)
                             changed = True
@@ -272,8 +278,15 @@ class Fn:
                     val = int(o["v"]) if isinstance(o.get("v"), (int, bool)) else None
                 elif not o["p"] and o["l"] in fidx:
                     val = cur[fidx[o["l"]]]
+                elif len(o["p"]) == 2 and str(o["p"][0]).startswith("@") and o["p"][1] == ".0" and o["l"] in fidx:
+                    w = cur[fidx[o["l"]]]          # payload of a wrapper whose variant (and payload variant) is known
+                    if isinstance(w, tuple) and w[0] == "V" and len(w) == 3 and w[1] == o["p"][0][1:]:
+                        val = w[2]
             elif rv["k"] == "agg" and rv.get("variant") and "adt" in rv:
-                val = ("V", rv["variant"])
+                inner = None
+                if len(rv["ops"]) == 1 and rv["ops"][0]["k"] in ("copy", "move") and not rv["ops"][0]["p"] and rv["ops"][0]["l"] in fidx:
+                    inner = cur[fidx[rv["ops"][0]["l"]]]
+                val = ("V", rv["variant"], inner) if inner is not None else ("V", rv["variant"])
             elif rv["k"] == "discr" and not rv["place"]["p"] and rv["place"]["l"] in fidx:
                 v = cur[fidx[rv["place"]["l"]]]
                 if isinstance(v, tuple) and v[0] == "V":
@@ -292,6 +305,8 @@ class Fn:
             if tag is not None:
                 if self._VT_BRANCH.search(c):
                     val = ("V", "Continue") if tag in ("Ok", "Some", "Continue") else (("V", "Break") if tag in ("Err", "None", "Break") else None)
+                    if val and val[1] == "Continue" and len(a) == 3:
+                        val = ("V", "Continue", a[2])
                 elif self._VT_PRED.search(c):
                     name = c.rsplit("::", 1)[1]
                     pos = tag in ("Ok", "Some")
